@@ -452,6 +452,22 @@ def case_project_one(chk, ctx, fs, k, m):
         return
     compare_model(chk, '_project_one_axis', inp, res, out)
 
+def case_project(chk, ctx, fs, ns):
+    """K only: the model of the public `Spectrum.project` (loop over the axes, unchanged sizes skipped, unfold/fold of folded
+    input, labels kept, rejected arguments) — the definition the general commutation theorems are about"""
+    driver = ctx['driver']
+    if driver is None or not driver.ok():
+        return
+    ns = [int(n) for n in ns]
+    inp = dict(op='project', ns=ns, fs=spec_json(fs))
+    res, exc = call(lambda: fs.project(list(ns)))
+    out = ask(driver, 'proj', ilist(ns), '-', fs)
+    chk.stat('op:project'); chk.stat('project:folded:%s' % bool(fs.folded))
+    if exc is not None:
+        (chk.k_ok('project:rejects') if out == 'err raises' else chk.k_bad('project:rejects', inp, repr(exc), out, None))
+        return
+    compare_model(chk, 'project', inp, res, out)
+
 def case_misc(chk, ctx, fs, idx):
     """Misc.combine_pops (2-D / 3-D only), unfolded input"""
     dadi = ctx['dadi']; driver = ctx['driver']
@@ -607,6 +623,111 @@ def commute_project(chk, ctx, U, rng, forced=None):
             chk.fail('commute_project:%s:labels' % name, 'labels %r vs %r' % (a.pop_ids, b.pop_ids), inp)
         chk.stat('commute_project:' + name)
 
+def obs_equal(a, b):
+    """observational equality (the `Obs` of the theorems): shape, mask, data at unmasked cells; plus labels and folded flag"""
+    ok, why = same_unmasked(np.asarray(a.data), np.asarray(a.mask), np.asarray(b.data), np.asarray(b.mask))
+    if not ok:
+        return False, why
+    la = None if a.pop_ids is None else list(a.pop_ids); lb = None if b.pop_ids is None else list(b.pop_ids)
+    if la != lb:
+        return False, 'labels differ (%r vs %r)' % (la, lb)
+    if bool(a.folded) != bool(b.folded):
+        return False, 'folded flags differ (%r vs %r)' % (a.folded, b.folded)
+    return True, ''
+
+def exact_pair(ctx, U, name, args):
+    """the two sides of a PROVED commutation (C10_commute_project_*), as closures on the implementation"""
+    d = U.ndim
+    ns = [int(s) - 1 for s in U.shape]
+    m = list(args['ns'])
+    if name == 'marginalize':
+        over = list(args['over']); keep = [k for k in range(d) if k not in over]; mc = bool(args['mask_corners'])
+        return (lambda: U.project(m).marginalize(over, mask_corners=mc)), (lambda: U.marginalize(over, mask_corners=mc).project([m[k] for k in keep]))
+    if name == 'reorder_pops':
+        perm = list(args['neworder'])
+        return (lambda: U.project(m).reorder_pops(perm)), (lambda: U.reorder_pops(perm).project([m[p - 1] for p in perm]))
+    if name in ('combine_two_pops', 'combine_pops'):
+        tc = list(args['tocombine']); S0 = sorted(t - 1 for t in tc); a = S0[0]
+        tgt = [(sum(ns[l] for l in S0) if k == a else m[k]) for k in range(d) if k not in S0[1:]]
+        if name == 'combine_two_pops':
+            return (lambda: U.project(m).combine_two_pops(tc)), (lambda: U.combine_two_pops(tc).project(tgt))
+        return (lambda: U.project(m).combine_pops(tc)), (lambda: U.combine_pops(tc).project(tgt))
+    raise KeyError(name)
+
+def commute_project_exact(chk, ctx, rng, d, cap, forced=None, U=None):
+    """L3 of the proved general forms, masks included: (1) marginalize over any set vs projecting any axes (summed ones too) on a
+    spectrum WITHOUT masked entries, both mask_corners; (2) reorder_pops, (3a) combine_two_pops / combine_pops vs projecting the
+    untouched populations on spectra with ANY mask"""
+    def smaller(ns, keep_fixed=()):
+        return [n if k in keep_fixed else (n if rng.random() < 0.2 else int(rng.integers(1, n + 1))) for k, n in enumerate(ns)]
+    todo = []
+    if forced is not None:
+        todo.append((U, forced[0], forced[1]))
+    elif d >= 2:
+        U1, _ = gen_spectrum(ctx, rng, d, min(cap, 250), maskmode='none', folded=False)
+        ns1 = [int(s) - 1 for s in U1.shape]
+        todo.append((U1, 'marginalize', dict(over=rand_subset(rng, d, 1, d - 1), ns=smaller(ns1), mask_corners=bool(rng.random() < 0.5))))
+        U2, _ = gen_spectrum(ctx, rng, d, min(cap, 250), folded=False)
+        ns2 = [int(s) - 1 for s in U2.shape]
+        todo.append((U2, 'reorder_pops', dict(neworder=[int(x) + 1 for x in rng.permutation(d)], ns=smaller(ns2))))
+        if d >= 3:
+            U3, _ = gen_spectrum(ctx, rng, d, min(cap, 250), folded=False)
+            ns3 = [int(s) - 1 for s in U3.shape]
+            pq = [int(x) for x in rng.choice(d, size=2, replace=False)]
+            todo.append((U3, 'combine_two_pops', dict(tocombine=[pq[0] + 1, pq[1] + 1], ns=smaller(ns3, keep_fixed=pq))))
+            U4, _ = gen_spectrum(ctx, rng, d, min(cap, 250), folded=False)
+            ns4 = [int(s) - 1 for s in U4.shape]
+            tc = [int(x) for x in rng.choice(d, size=int(rng.integers(2, d)), replace=False)]
+            todo.append((U4, 'combine_pops', dict(tocombine=[t + 1 for t in tc], ns=smaller(ns4, keep_fixed=tc))))
+    for V, name, args in todo:
+        f, g = exact_pair(ctx, V, name, args)
+        inp = dict(op='commute_project_exact:' + name, args=args, fs=spec_json(V))
+        chk.l3(('commute_project_exact', name, V.ndim, standard_mask(V), bool(args.get('mask_corners', True))))
+        a, ea = call(f); b, eb = call(g)
+        if ea is not None or eb is not None:
+            chk.fail('commute_project_exact:%s:raises' % name, '%s: %r / %r' % (name, ea, eb), inp); continue
+        ok, why = obs_equal(a, b)
+        if not ok:
+            chk.fail('commute_project_exact:%s' % name, '%s then project != project then %s (shape, mask, unmasked data, labels, flag): %s' % (name, name, why), inp)
+        chk.stat('commute_project_exact:' + name)
+
+def merged_split(chk, ctx, rng, d, cap, forced=None, U=None):
+    """L3 of C10_project_merged_split: projecting the MERGED population to M after combine_two_pops is the hypergeometric mixture
+    over the splits M = ma + mb of (project the two populations to ma, mb; then merge) — not a plain commutation"""
+    if forced is None:
+        if d < 2:
+            return
+        U, _ = gen_spectrum(ctx, rng, d, min(cap, 200), maskmode='none', folded=False)
+        pq = sorted(int(x) for x in rng.choice(d, size=2, replace=False))
+        na, nb = U.shape[pq[0]] - 1, U.shape[pq[1]] - 1
+        args = dict(tocombine=[pq[1] + 1, pq[0] + 1], M=int(rng.integers(1, na + nb + 1)))
+    else:
+        args = forced
+    tc = list(args['tocombine']); a, b = sorted(t - 1 for t in tc); M = int(args['M'])
+    d = U.ndim
+    ns = [int(s) - 1 for s in U.shape]; na, nb = ns[a], ns[b]
+    inp = dict(op='merged_split', args=args, fs=spec_json(U))
+    chk.l3(('merged_split', d, M == na + nb, M <= min(na, nb)))
+    tgt = [(M if k == a else ns[k]) for k in range(d) if k != b]
+    lhs, e1 = call(lambda: U.combine_two_pops(tc).project(tgt))
+    if e1 is not None:
+        chk.fail('merged_split:raises', 'combine_two_pops(...).project(...) raises %r' % (e1,), inp); return
+    acc = np.zeros(lhs.shape); anymask = np.asarray(lhs.mask).copy()
+    for ma in range(max(0, M - nb), min(na, M) + 1):
+        mb = M - ma
+        w = Fraction(math.comb(na, ma) * math.comb(nb, mb), math.comb(na + nb, M))
+        mm = list(ns); mm[a] = ma; mm[b] = mb
+        term, e2 = call(lambda: U.project(mm).combine_two_pops(tc))
+        if e2 is not None:
+            chk.fail('merged_split:raises', 'project(%r).combine_two_pops raises %r' % (mm, e2), inp); return
+        acc += float(w) * np.asarray(term.data); anymask |= np.asarray(term.mask)
+    keep = ~anymask
+    if np.any(keep):
+        scale = float(np.max(np.abs(acc[keep]))); err = float(np.max(np.abs(acc[keep] - np.asarray(lhs.data)[keep])))
+        if not (err <= 1e-9 * max(scale, 1e-300)):
+            chk.fail('merged_split:mixture', 'project(merged, M=%d) differs from the hypergeometric mixture over the splits by %.3g (scale %.3g)' % (M, err, scale), inp)
+    chk.stat('merged_split')
+
 # ------------------------------------------------------------------------------------------ drivers of the check
 def one_round(chk, ctx, rng, cap, d):
     dadi = ctx['dadi']
@@ -652,6 +773,23 @@ def one_round(chk, ctx, rng, cap, d):
     commute_fold(chk, ctx, U, rng)
     U2, _ = gen_spectrum(ctx, rng, d, min(cap, 250), maskmode='std', folded=False)
     commute_project(chk, ctx, U2, rng)
+    # the proved general forms, masks included; the folded path of marginalize on a spectrum without masked entries
+    commute_project_exact(chk, ctx, rng, d, cap)
+    merged_split(chk, ctx, rng, d, cap)
+    if d >= 2:
+        U3, _ = gen_spectrum(ctx, rng, d, min(cap, 250), maskmode='none', folded=False)
+        commute_fold(chk, ctx, U3, rng, forced=('marginalize', dict(over=rand_subset(rng, d, 1, d - 1))))
+    # public project (model used by the general commutation theorems): any mask, folded or not, some sizes unchanged, some invalid
+    fs10, _ = gen_spectrum(ctx, rng, d, 40 if d == 1 else min(cap, 250))
+    n10 = [int(x) - 1 for x in fs10.shape]
+    r10 = rng.random()
+    if r10 < 0.08:
+        m10 = n10 + [1]
+    elif r10 < 0.16:
+        m10 = list(n10); m10[int(rng.integers(d))] += 1
+    else:
+        m10 = [n if rng.random() < 0.3 else int(rng.integers(0 if rng.random() < 0.1 else 1, n + 1)) for n in n10]
+    case_project(chk, ctx, fs10, m10)
 
 def edge_cases(chk, ctx, rng):
     """deterministic structure, random values"""
@@ -753,6 +891,12 @@ def replay(chk, ctx, data):
         case_misc(chk, ctx, fs, inp['idx'])
     elif op == '_project_one_axis':
         case_project_one(chk, ctx, fs, inp['axis'], inp['n'])
+    elif op == 'project':
+        case_project(chk, ctx, fs, inp['ns'])
+    elif op.startswith('commute_project_exact:'):
+        commute_project_exact(chk, ctx, rng, fs.ndim, 300, forced=(op.split(':', 1)[1], inp.get('args') or {}), U=fs)
+    elif op == 'merged_split':
+        merged_split(chk, ctx, rng, fs.ndim, 300, forced=(inp.get('args') or {}), U=fs)
     elif op.startswith('commute_fold:'):
         commute_fold(chk, ctx, fs, rng, forced=(op.split(':', 1)[1], inp.get('args') or {}))
     elif op.startswith('commute_project:'):
